@@ -17,52 +17,6 @@ const c05Rule = "case = posting list (fixed chunk sizes 1..7 on few-document bat
 	"(d relative to the cursor: successor, next hit, same chunk, next chunk boundary, far, beyond the end; calls repeated after the end); oracle = filtered model list + cursor, checked after every call; " +
 	"non-trivial = list spans >=2 chunks and the history has an Advance that skips >=1 posting, or an exclusion removes a posting between two returned ones; distinct = hash of case text + history"
 
-// genPostingBatch draws a batch focused on one posting list: term "t" of
-// field "a" occurs in most documents, with drawn frequencies and locations.
-func genPostingBatch(t *rapid.T, sc *Scenario) Batch {
-	n := rapid.IntRange(1, 28).Draw(t, "nDocs")
-	b := make(Batch, n)
-	withB := rapid.Bool().Draw(t, "withB")
-	for i := range b {
-		kind := rapid.IntRange(0, 9).Draw(t, "docKind")
-		if kind == 0 {
-			continue // empty document
-		}
-		f := Field{Name: "a", DV: sc.Schema["a"] == dvAlways}
-		if kind >= 2 {
-			tm := Term{T: "t"}
-			nl := rapid.SampledFrom([]int{0, 0, 1, 2}).Draw(t, "nLocs")
-			for l := 0; l < nl; l++ {
-				lf := ""
-				if withB && rapid.Bool().Draw(t, "locB") {
-					lf = "b"
-				}
-				tm.Locs = append(tm.Locs, Loc{Field: lf, Pos: rapid.SampledFrom(posVals).Draw(t, "pos"), Start: i, End: i + l})
-			}
-			tm.Freq = nl + rapid.SampledFrom([]int{0, 1, 1, 3}).Draw(t, "xf")
-			if tm.Freq == 0 {
-				tm.Freq = 1
-			}
-			f.Terms = append(f.Terms, tm)
-			f.Len += tm.Freq
-		}
-		if kind%2 == 1 {
-			f.Terms = append(f.Terms, Term{T: fmt.Sprintf("u%d", i%3), Freq: 1})
-			f.Len++
-		}
-		if kind == 1 || kind == 5 { // a term unique to this document: 1-hit encoded by a merge
-			f.Terms = append(f.Terms, Term{T: fmt.Sprintf("only%02d", i), Freq: 1})
-			f.Len++
-		}
-		b[i].Fields = append(b[i].Fields, f)
-		if withB && kind%3 == 0 {
-			b[i].Fields = append(b[i].Fields, Field{Name: "b", Len: 1, Terms: []Term{{T: "t", Freq: 1}}})
-		}
-	}
-	fixLocFields(b)
-	return b
-}
-
 type c05Target struct {
 	c     *SegCase
 	field string
